@@ -524,7 +524,14 @@ def pmap(fn, items, initfn=None, procs=NCPU, chunksize=None, aux=None):
         chunksize = max(1, min(200, len(items) // (procs * 8) or 1))
     ctx = mp.get_context("fork")
     with ctx.Pool(procs, initializer=_pool_init, initargs=(initfn, aux)) as pool:
-        return pool.map(fn, items, chunksize=chunksize)
+        # a worker killed by the implementation (e.g. a segmentation fault in a compiled kernel) would make a plain
+        # map() wait for ever: bound the wait and report a machinery failure instead of hanging
+        res = pool.map_async(fn, items, chunksize=chunksize)
+        try:
+            return res.get(timeout=float(os.environ.get("VERIF_STAGE_TIMEOUT", "5400")))
+        except mp.TimeoutError:
+            pool.terminate()
+            raise MachineryError("a stage did not finish: a worker process died or hung while executing the library")
 
 
 class Timeout(Exception):
